@@ -67,3 +67,15 @@ Example C15_nonvacuous :
     = [(0, 4); (0, 0); (4, 0); (4, 4)] /\
   length (pg_vertices (Polygon2D_remove_duplicate_vertices p (1 # 100))) = 5%nat.
 Proof. vm_compute. split; reflexivity. Qed.
+
+(* Face3D's vertex clean-up (generated Face3D._remove_colinear, used for the boundary and every hole, and by extract_rectangle before
+   sub_faces_by_ratio_rectangle) IS Polygon2D.remove_colinear_vertices run on the loop's 2D polygon: for 3D vertices that are the images of
+   the 2D ones under any map, it keeps exactly the images of the vertices the 2D routine keeps - same test, same clamp, same seam patch *)
+From Coq Require Import List.
+From LBG Require Import Base G0_vec G3_poly G4_face G9_clean C15_face.
+Theorem C15_face_cleanup_is_the_polygon_cleanup : forall (qsqrt : Q -> Q) (emb : V2 -> V3) (self : Face3R) (p : Polygon2R) (tol : Q),
+  pg_vertices p <> nil ->
+  Face3D__remove_colinear qsqrt self (map emb (pg_vertices p)) p tol
+  = map emb (pg_vertices (Polygon2D_remove_colinear_vertices qsqrt p tol)).
+Proof. exact face_remove_colinear_is_the_2d_routine. Qed.
+Print Assumptions C15_face_cleanup_is_the_polygon_cleanup.
